@@ -14,7 +14,7 @@ func init() {
 	register(&Property{
 		ID:      "C03",
 		Engines: []string{"cfg", "lockset"},
-		Explanation: "Connection lifecycle, structural part: every teardown call is dominated, inside one critical section, by the !closed edge and the store closed=true (O1); the close/open notification fields, deleteConn and close(fd) have exactly the frozen caller sets (O2); open and close notifications are guarded by the same type predicate and the connection WaitGroup Add/Done sites are the frozen sets (O3); every effect of the public operations is dominated by the !closed edge and the closed edge returns the closed indication without effect (O4); table removal precedes close(fd), the open notification precedes the table insert and EPOLL_CTL_ADD (O5); closeErr has only the two frozen writers (O6); a dial success report is dominated by evidence of establishment and a pending dial callback is reported on teardown (O7).",
+		Explanation: "Connection lifecycle, structural part: every teardown call is dominated, inside one critical section, by the !closed edge and the store closed=true (O1); the close/open notification fields, deleteConn and close(fd) have exactly the frozen caller sets (O2); open and close notifications are guarded by the same type predicate and the connection WaitGroup Add/Done sites are the frozen sets (O3); every effect of the public operations is dominated by the !closed edge and the closed edge returns the closed indication without effect (O4); table removal precedes close(fd), the open notification precedes the table insert and EPOLL_CTL_ADD (O5); closeErr has only the two frozen writers (O6); a dial success report is dominated by evidence of establishment and a pending dial callback is reported on teardown (O7). DialAsyncTimeout keeps a descriptor as a pending dial only for connect()==nil or EINPROGRESS (O8); deleteConn reports the close on every path except the nil guard and the UDP listener type (O9).",
 		NotCovered: "histories and interleavings as such (the argument is one flag, one critical section, one caller chain); descriptor reuse by the kernel; UDP session races",
 		Run:        runC03,
 	})
@@ -28,7 +28,9 @@ func runC03(c *Ctx) {
 	c.Rule("C03.O5", "E4", "teardown removes the table entry before close(fd); addConn notifies open before the table insert and EPOLL_CTL_ADD", 2)
 	c.Rule("C03.O6", "E5", "closeErr is written only by teardown and by the nil-guarded UDP read path", 1)
 	c.Rule("C03.O8", "E4", "DialAsyncTimeout keeps the descriptor as a pending dial only for connect() == nil or EINPROGRESS: every other errno closes the descriptor and is returned", 1)
+	c.Rule("C03.O9", "E4", "deleteConn reports the close on every path (one close notification per connection means at least one): the only exits without onClose are the nil guard and the UDP-listener type", 1)
 	c.Rule("C03.O7", "E4", "onConnected(c, nil) is dominated by evidence that the connect succeeded; teardown reports a still-pending dial callback", 2)
+	c03AlwaysNotifies(c, "C03.O9")
 	c03DialClassify(c)
 
 	core := c.Core()
@@ -660,4 +662,54 @@ func c03DialClassify(c *Ctx) {
 		}
 	}
 	c.Cond(bad == "", "C03.O8", key, c.FnPos(fn), fmt.Sprintf("%d errno test(s): only EINPROGRESS continues", n), bad)
+}
+
+// c03AlwaysNotifies: O9.
+func c03AlwaysNotifies(c *Ctx, ob string) {
+	fn := c.Fn(ob, "(*nbio.poller).deleteConn")
+	if fn == nil {
+		return
+	}
+	fi := c.P.Info(fn)
+	key := fnKey(c.P, fn, "close always reported")
+	udpServer := c.pkgConstInt("nbio", "ConnTypeUDPServer")
+	isNotify := func(in ssa.Instruction) bool {
+		cs, ok := ir.AsCall(in)
+		return ok && c.P.CalleeName(cs.Common) == "dyn:"+fEngOnClose
+	}
+	skip := func(i *ssa.If, k int) bool {
+		if x, isNil, ok := ir.NilTest(i.Cond, k == 0); ok && isNil {
+			if _, isParam := ir.Resolve(x).(*ssa.Parameter); isParam {
+				return true
+			}
+		}
+		cnd, truth := ir.StripNot(i.Cond, k == 0)
+		if cmp, ok := ir.DecodeIntCmp(cnd); ok && c.P.LoadedField(cmp.Expr) == "nbio.Conn.typ" {
+			// edge on which typ == ConnTypeUDPServer
+			if cmp.Holds(udpServer) == truth && cmp.Holds(udpServer+1) != truth && cmp.Holds(udpServer-1) != truth {
+				return true
+			}
+		}
+		return false
+	}
+	first := fn.Blocks[0].Instrs[0]
+	vis, _ := fi.ReachOpt([]ssa.Instruction{first}, isNotify, skip)
+	bad := ""
+	n := 0
+	for _, b := range fn.Blocks {
+		for _, in := range b.Instrs {
+			if isNotify(in) {
+				n++
+			}
+		}
+	}
+	for _, r := range fi.Returns() {
+		if vis[r] {
+			bad = "deleteConn can return at " + c.Pos(r) + " without the close notification for a connection that is neither nil nor the UDP listener: its OnClose never runs and the engine's connection WaitGroup is never released (Stop blocks)"
+		}
+	}
+	if n == 0 {
+		bad = "no close notification in deleteConn"
+	}
+	c.Cond(bad == "", ob, key, c.FnPos(fn), "every other path passes onClose", bad)
 }
